@@ -61,6 +61,9 @@ extern const char *(*vrt_unknown_hook)(const void *p);	/* called for unnamed add
 int  vrt_mutex_lock(pthread_mutex_t *m);
 int  vrt_mutex_trylock(pthread_mutex_t *m);
 int  vrt_mutex_unlock(pthread_mutex_t *m);
+int  vrt_cond_wait(pthread_cond_t *c, pthread_mutex_t *m);
+int  vrt_cond_broadcast(pthread_cond_t *c);
+int  vrt_cond_signal(pthread_cond_t *c);
 long vrt_syscall(long nr, ...);		/* futex + membarrier; everything else passes through */
 int  vrt_poll(void *fds, unsigned long nfds, int timeout);
 int  vrt_pthread_create(pthread_t *t, const pthread_attr_t *a, void *(*fn)(void *), void *arg);
